@@ -1,6 +1,7 @@
 package main
 
 import (
+	"strings"
 	"fmt"
 	"go/token"
 	"go/types"
@@ -18,6 +19,9 @@ func (w *World) sorterArg(c ssa.CallInstruction, depth int) ssa.Value {
 		"slices.Sort", "slices.SortFunc", "slices.SortStableFunc",
 		"golang.org/x/exp/slices.Sort", "golang.org/x/exp/slices.SortFunc", "golang.org/x/exp/slices.SortStableFunc":
 		if len(com.Args) > 0 {
+			if !comparatorIsPlain(w, c, name) {
+				return nil // ordered by a derived key: ties keep the order the elements arrived in
+			}
 			return strip(com.Args[0])
 		}
 	}
@@ -648,4 +652,65 @@ func cellAppendSorted(w *World, l *Loop, cell *ssa.Alloc, st *ssa.Store) bool {
 	_ = fn
 	_ = lessFns
 	return true
+}
+
+// comparatorIsPlain: the sort orders the elements by comparing them (or a
+// field of them) directly. A comparator that first maps the elements through
+// a function (strings.ToLower, a length, a hash of part of the element) is
+// not a total order on the elements: distinct elements that map to the same
+// key compare as equal and stay in the order in which they arrived — for a
+// slice filled from a map, map iteration order. Such a sort does not count
+// as "sorted before use".
+func comparatorIsPlain(w *World, c ssa.CallInstruction, name string) bool {
+	com := c.Common()
+	var cmp *ssa.Function
+	switch name {
+	case "sort.Strings", "sort.Ints", "sort.Float64s", "slices.Sort", "golang.org/x/exp/slices.Sort":
+		return true
+	case "sort.Sort", "sort.Stable":
+		// Less method of the dynamic type handed in
+		arg := com.Args[0]
+		if mi, ok := arg.(*ssa.MakeInterface); ok {
+			if ms := w.Prog.MethodSets.MethodSet(mi.X.Type()); ms != nil {
+				if sel := ms.Lookup(nil, "Less"); sel != nil {
+					cmp = w.Prog.MethodValue(sel)
+				}
+			}
+		}
+		if cmp == nil {
+			return true // cannot resolve: keep the previous behaviour (named sorter types of the package compare whole elements)
+		}
+	default:
+		if len(com.Args) < 2 {
+			return true
+		}
+		switch f := com.Args[1].(type) {
+		case *ssa.MakeClosure:
+			cmp, _ = f.Fn.(*ssa.Function)
+		case *ssa.Function:
+			cmp = f
+		}
+		if cmp == nil {
+			return false
+		}
+	}
+	if cmp.Blocks == nil {
+		return true
+	}
+	plain := true
+	allInstrs(cmp, func(in ssa.Instruction) {
+		call, ok := in.(ssa.CallInstruction)
+		if !ok {
+			return
+		}
+		if b, isB := call.Common().Value.(*ssa.Builtin); isB && (b.Name() == "len" || b.Name() == "min" || b.Name() == "max") {
+			return
+		}
+		switch n := calleeFullName(call); {
+		case n == "strings.Compare", n == "bytes.Compare", strings.HasPrefix(n, "cmp.Compare"), n == "bytes.Equal":
+		default:
+			plain = false
+		}
+	})
+	return plain
 }
